@@ -121,10 +121,12 @@ func (wgb *WeightedAuthorizationModelGraphBuilder) parseTupleToUserset(wg *Weigh
 		return fmt.Errorf("%w: Model cannot be parsed. No type and relation link exists for tupleset relation %s and computed relation %s", ErrInvalidModel, tuplesetRelation, computedRelation)
 	}
 
+	typesWithRelation := typesDefiningRelation(model, computedRelation)
+
 	for _, relatedType := range directlyRelated {
 		tuplesetType := relatedType.GetType()
 
-		if !typeAndRelationExists(model, tuplesetType, computedRelation) {
+		if _, ok := typesWithRelation[tuplesetType]; !ok {
 			return fmt.Errorf("%w: Model cannot be parsed. %s type does not have defined %s relation", ErrInvalidModel, tuplesetType, computedRelation)
 		}
 
